@@ -2,8 +2,11 @@
 
 selftest-determinism [--runs K]   every claimed property: K runs, executed
     (a) twice in this process at two worker counts, (b) in a fresh interpreter
-    under another PYTHONHASHSEED and worker count, (c) with OPENBLAS threads 4;
-    per-run digests must agree.
+    under another PYTHONHASHSEED and worker count, (c) with junk allocations
+    between runs (another heap layout); per-run digests must agree.  The BLAS
+    thread count is *pinned* to 1 (odlsim.env) and not varied here: with 4
+    threads OpenBLAS axpy on >= 50 000 entries differs in the last bit at the
+    chunk boundaries (2 of 2000 C01 runs).
 selftest-digest <prop>            helper: print per-run digests as JSON.
 selftest-sensitivity              apply each seeded change in /verif/seeded and
     each built-in mutation to a scratch copy of /repo/odl and expect the quick
@@ -68,11 +71,12 @@ def main(args):
             b, _ = _digests(prop, runs, 5, args.seed)
             c = _fresh(prop, runs, 7, args.seed, {'PYTHONHASHSEED': '4242'})
             d = _fresh(prop, runs, 3, args.seed,
-                       {'PYTHONHASHSEED': '99', 'ODLSIM_BLAS_THREADS': '4'})
+                       {'PYTHONHASHSEED': '99', 'ODLSIM_HEAP_NOISE': '7'})
             diffs = [r for r in a
                      if not (a[r] == b.get(r) == c.get(r) == d.get(r))]
             print('{}: {} runs x 4 executions (workers 16/5/7/3, hash seeds '
-                  '0/0/4242/99, BLAS threads 1/1/1/4): {} divergent'.format(
+                  '0/0/4242/99, junk allocations between runs in the last): '
+                  '{} divergent'.format(
                       prop, len(a), len(diffs)))
             if len(a) != runs or len(b) != runs or len(c) != runs:
                 print('  incomplete batches', len(a), len(b), len(c), len(d))
